@@ -239,6 +239,16 @@ func main() {
 			lims[size-1] = true
 			lims[size-50] = true
 		}
+		if c.Thorough() {
+			// "a file-size limit reached at any byte offset": every offset for the small files, every 16th otherwise
+			step := int64(1)
+			if size > 5000 {
+				step = 16
+			}
+			for l := int64(0); l < size; l += step {
+				lims[l] = true
+			}
+		}
 		for l := range lims {
 			if l >= 0 && l < size {
 				plans = append(plans, &vos.Plan{Limit: l})
